@@ -40,11 +40,14 @@ theorem list_header_roundtrip (p : Proto) (t : TType) (n : Nat) (ht : Lemmas.Thr
 fragment `Lemmas.ThriftSkip.RT` (bool, integers in range, doubles, strings, binaries, lists at any nesting, non-nil
 pointers, named types). Structs, maps and sets are corresponded by the harness (and covered on the skipping side by
 `Props.C08.skip_consumes_exactly`); what is missing for them is a proof about the key-deduplicating `mapPut` and the
-field table. -/
+field table. `d` is the decoder's nesting counter (Go `flags.depth()`): types nested deeper than maxDepth = 10000
+containers are rejected by the decoder since the fix 9c8d6b4, hence the hypothesis `hd` (`nest ty` = number of nested
+lists / sets / maps / structs of the type, defined in the model). -/
 theorem decode_encode_partial (p : Proto) (strict : Bool) (ty : Ty) (v : Val) (h : Lemmas.ThriftSkip.RT ty v = true)
-    (fuel : Nat) (rest : Bytes) (cur : Val) (hf : Lemmas.ThriftSkip.fuelD ty v ≤ fuel) :
-    decode p strict fuel ty (encode p ty v ++ rest) cur = .ok (v, rest) :=
-  Lemmas.ThriftSkip.decode_encode p strict ty v h fuel rest cur hf
+    (d : Nat) (fuel : Nat) (rest : Bytes) (cur : Val) (hd : d + nest ty ≤ Gen.c_thrift_maxDepth)
+    (hf : Lemmas.ThriftSkip.fuelD ty v ≤ fuel) :
+    decode p strict d fuel ty (encode p ty v ++ rest) cur = .ok (v, rest) :=
+  Lemmas.ThriftSkip.decode_encode p strict ty v h d fuel rest cur hd hf
 
 /-! ## the full round trip (proofs in Enc/Lemmas/ThriftRoundTrip*.lean; 9 files)
 
@@ -52,25 +55,36 @@ Universe `RTS`: bool, signed integers in range, doubles, strings, binaries, list
 pointers (nil allowed), named types, and structs at any nesting with ids 1…32767 pairwise distinct, required pointer
 fields non-nil, `enum` only on int32 kinds. `norm` is the value the decoder really produces: an elided field comes back
 as its zero value, a written nil collection as an empty one, an elided −0.0 as +0.0, a written nil pointer as a
-pointer to the zero value (the last two are the known findings). `Exact`: no such ambiguity, then `norm v = v`. -/
+pointer to the zero value (the last two are the known findings). `Exact`: no such ambiguity, then `norm v = v`.
+
+Nesting depth: types nested deeper than maxDepth = 10000 containers (lists, sets, maps, structs; `nest ty`, pointers and
+named types do not count) are rejected by the decoder since the fix 9c8d6b4 (the encoder has no such limit), hence the
+hypothesis `hd : nest ty ≤ Gen.c_thrift_maxDepth` of the three theorems below. It constrains the type only and is not part
+of the universe predicate `RTS`. -/
+
+/-- the depth hypothesis is satisfiable for nested types (`[]map[string]struct{ A []int32 }`: 4 containers) -/
+example : nest (.slice (.map .str (.struct (.cons "A" "thrift:\"1\"" false (.slice (.int .i32)) .nil))))
+    ≤ Gen.c_thrift_maxDepth := by decide
 
 open Lemmas.ThriftRoundTrip in
-/-- **MAIN.** Binary strict, binary non-strict and compact; strict and non-strict decoding; every type and value of the
-universe: Unmarshal(Marshal(v)) is v up to nil-versus-empty. -/
-theorem unmarshal_marshal (p : Proto) (strict : Bool) (ty : Ty) (v : Val) (h : RTS ty v = true) :
+/-- **MAIN.** Binary strict, binary non-strict and compact; strict and non-strict decoding; every type (nested at most
+maxDepth containers deep) and value of the universe: Unmarshal(Marshal(v)) is v up to nil-versus-empty. -/
+theorem unmarshal_marshal (p : Proto) (strict : Bool) (ty : Ty) (v : Val) (h : RTS ty v = true)
+    (hd : nest ty ≤ Gen.c_thrift_maxDepth) :
     unmarshal p strict ty (marshal p ty v) = .ok (norm ty v) :=
-  Lemmas.ThriftRoundTrip.unmarshal_marshal p strict ty v h
+  Lemmas.ThriftRoundTrip.unmarshal_marshal p strict ty v h hd
 
 open Lemmas.ThriftRoundTrip in
 theorem unmarshal_marshal_exact (p : Proto) (strict : Bool) (ty : Ty) (v : Val) (h : RTS ty v = true)
-    (hx : Exact ty v) : unmarshal p strict ty (marshal p ty v) = .ok v :=
-  Lemmas.ThriftRoundTrip.unmarshal_marshal_exact_partial p strict ty v h hx
+    (hd : nest ty ≤ Gen.c_thrift_maxDepth) (hx : Exact ty v) : unmarshal p strict ty (marshal p ty v) = .ok v :=
+  Lemmas.ThriftRoundTrip.unmarshal_marshal_exact_partial p strict ty v h hd hx
 
 open Lemmas.ThriftRoundTrip in
 /-- the protocols decode each other's logical content to the same value: the result of the round trip does not depend
 on the protocol setting nor on strictness -/
-theorem protocols_agree (p₁ p₂ : Proto) (s₁ s₂ : Bool) (ty : Ty) (v : Val) (h : RTS ty v = true) :
+theorem protocols_agree (p₁ p₂ : Proto) (s₁ s₂ : Bool) (ty : Ty) (v : Val) (h : RTS ty v = true)
+    (hd : nest ty ≤ Gen.c_thrift_maxDepth) :
     unmarshal p₁ s₁ ty (marshal p₁ ty v) = unmarshal p₂ s₂ ty (marshal p₂ ty v) := by
-  rw [Lemmas.ThriftRoundTrip.unmarshal_marshal p₁ s₁ ty v h, Lemmas.ThriftRoundTrip.unmarshal_marshal p₂ s₂ ty v h]
+  rw [Lemmas.ThriftRoundTrip.unmarshal_marshal p₁ s₁ ty v h hd, Lemmas.ThriftRoundTrip.unmarshal_marshal p₂ s₂ ty v h hd]
 
 end Enc.Props.C04
